@@ -5,6 +5,25 @@
 
 pub use real_nix::*;
 
+pub mod fcntl {
+    pub use real_nix::fcntl::*;
+    use std::os::unix::io::RawFd;
+
+    /// splice(2) with seeded short counts (a legal kernel outcome that real sockets produce under
+    /// back-pressure and AF_UNIX pairs do not): the requested length is clamped by the simulation.
+    pub fn splice(
+        fd_in: RawFd,
+        off_in: Option<&mut libc::loff_t>,
+        fd_out: RawFd,
+        off_out: Option<&mut libc::loff_t>,
+        len: usize,
+        flags: SpliceFFlags,
+    ) -> real_nix::Result<usize> {
+        let len = tokio::sim::short_splice_len(len);
+        real_nix::fcntl::splice(fd_in, off_in, fd_out, off_out, len, flags)
+    }
+}
+
 pub mod sys {
     pub use real_nix::sys::*;
 
@@ -47,6 +66,39 @@ pub mod sys {
                 tokio::net::raw_intent_set(fd, |_| {});
             }
             Ok(fd)
+        }
+
+        /// SO_ORIGINAL_DST / IP6T_SO_ORIGINAL_DST on a simulated stream: answered from the simulation
+        /// (the destination the diverted client addressed), ENOENT when the connection was not diverted.
+        pub fn getsockopt<O: GetSockOpt + 'static>(fd: RawFd, opt: O) -> Result<O::Val> {
+            use std::any::TypeId;
+            let t = TypeId::of::<O>();
+            let v4 = t == TypeId::of::<sockopt::OriginalDst>();
+            let v6 = t == TypeId::of::<sockopt::Ip6tOriginalDst>();
+            if v4 || v6 {
+                if let Some(ans) = tokio::net::sim_original_dst(fd) {
+                    return match ans {
+                        Some(SocketAddr::V4(a)) if v4 => {
+                            let mut sa: libc::sockaddr_in = unsafe { std::mem::zeroed() };
+                            sa.sin_family = libc::AF_INET as libc::sa_family_t;
+                            sa.sin_port = a.port().to_be();
+                            sa.sin_addr.s_addr = u32::from(*a.ip()).to_be();
+                            assert_eq!(std::mem::size_of::<O::Val>(), std::mem::size_of::<libc::sockaddr_in>());
+                            Ok(unsafe { std::mem::transmute_copy::<libc::sockaddr_in, O::Val>(&sa) })
+                        }
+                        Some(SocketAddr::V6(a)) if v6 => {
+                            let mut sa: libc::sockaddr_in6 = unsafe { std::mem::zeroed() };
+                            sa.sin6_family = libc::AF_INET6 as libc::sa_family_t;
+                            sa.sin6_port = a.port().to_be();
+                            sa.sin6_addr.s6_addr = a.ip().octets();
+                            assert_eq!(std::mem::size_of::<O::Val>(), std::mem::size_of::<libc::sockaddr_in6>());
+                            Ok(unsafe { std::mem::transmute_copy::<libc::sockaddr_in6, O::Val>(&sa) })
+                        }
+                        _ => Err(real_nix::errno::Errno::ENOENT),
+                    };
+                }
+            }
+            real_nix::sys::socket::getsockopt(fd, opt)
         }
 
         pub fn bind(fd: RawFd, addr: &dyn SockaddrLike) -> Result<()> {
